@@ -13,6 +13,7 @@ Definition exn_of_tag (t : Z) : exn :=
   | 16 => ConnectionRefusedError | 17 => ConnectionResetError | 18 => SocketTimeout | 19 => GaiError
   | 20 => MemcacheError | 21 => MemcacheClientError | 22 => MemcacheUnknownCommandError
   | 23 => MemcacheIllegalInputError | 24 => MemcacheServerError | 25 => MemcacheUnknownError
+  | 27 => WouldBlock
   | _ => MemcacheUnexpectedCloseError end.
 Fixpoint tags (l : list dyn) : list exn :=
   match l with DInt t :: r => exn_of_tag t :: tags r | _ :: r => tags r | [] => [] end.
